@@ -29,7 +29,7 @@ RULE = ('training sets of 1..60 samples with duplicates and constructed '
 REQUIRED = {'update-optimal': 2000, 'update-untouched': 150,
     'update-local-descent': 2000, 'descent': 150, 'shape-ranks': 200,
     'end-optimal': 200, 'restart': 200, 'permutation': 200, 'reject': 60,
-    'info': 200, 'cb-stop': 60, 'adaptive': 40, 'f-update-optimal': 500,
+    'info': 200, 'cb-stop': 60, 'adaptive': 40, 'adaptive-stab': 20, 'f-update-optimal': 500,
     'f-descent': 100, 'f-end-optimal': 40, 'f-restart': 60,
     'f-permutation': 60}
 REQUIRED_EVENTS = {'singleton-at-row0': 30, 'singleton-at-last-row': 30}
@@ -527,6 +527,23 @@ def run_adaptive(case, ctx):
             ctx.check('adaptive', all(q <= rcap for q in ref.ranks_of(Y)),
                 f'rank-adaptive als ranks {ref.ranks_of(Y)} exceed r = {rcap}')
         outs.append(Y)
+    # documented flag use_stab ("the rank-adaptive method will use additional
+    # stabilization of the cores")
+    try:
+        Ys = teneva.als(I, y, Y0, nswp=nsw, e=None, r=rcap, lamb=lamb,
+            use_stab=True, info={})
+    except AttributeError as ex:
+        # mechanism of the known finding: orthogonalize(Y, 0, True) returns
+        # the pair (Z, p) and als goes on with the pair as if it were Z
+        pair = "'tuple' object" in str(ex) or "'list' object" in str(ex)
+        ctx.viol('adaptive-stab', f'als(r={rcap}, use_stab=True) raised '
+            f'AttributeError: {ex}', kf='als-adaptive-use_stab-pair'
+            if pair else None)
+    else:
+        why = ref.wellformed(Ys, n)
+        ctx.check('adaptive-stab', why is None and all(q <= rcap
+            for q in ref.ranks_of(Ys)), f'als(use_stab=True): {why}, ranks '
+            f'{ref.ranks_of(Ys) if why is None else None}')
     ctx.nontrivial(['adaptive', n, rcap, r0, m])
 
 
